@@ -36,11 +36,11 @@ pub proof fn lemma_ld_shift(y: int) ensures ld(y + 4800) == ld(y) + 1164 {
 pub proof fn lemma_ld_step(y: int)
     ensures ld(y) == ld(y - 1) + (if leap(y) {1int} else {0int})
 {
-    assert(y / 4 == (y - 1) / 4 + (if y % 4 == 0 {1int} else {0int}));
-    assert(y / 100 == (y - 1) / 100 + (if y % 100 == 0 {1int} else {0int}));
-    assert(y / 400 == (y - 1) / 400 + (if y % 400 == 0 {1int} else {0int}));
-    assert(y % 400 == 0 ==> y % 100 == 0);
-    assert(y % 100 == 0 ==> y % 4 == 0);
+    lemma_div_step(y, 4);
+    lemma_div_step(y, 100);
+    lemma_div_step(y, 400);
+    assert(y % 400 == 0 ==> y % 100 == 0) by { if y % 400 == 0 { vstd::arithmetic::div_mod::lemma_mod_mod(y, 100, 4); } }
+    assert(y % 100 == 0 ==> y % 4 == 0) by { if y % 100 == 0 { vstd::arithmetic::div_mod::lemma_mod_mod(y, 4, 25); } }
 }
 
 pub proof fn lemma_stage12(jj: int, q: int, rem: int, c: int, z: int)
